@@ -62,6 +62,21 @@ Theorem C19_tall_tree_order : forall k, 1 <= k -> order (tall k) = k.
 Proof. exact tall_order. Qed.
 Print Assumptions C19_tall_tree_order.
 
+(* unbounded in k: the density of the tall tree with k vertices is k! *)
+Theorem C19_tall_tree_gamma : forall k, 1 <= k -> (gamma (tall k) == qfact k)%Q.
+Proof. exact tall_gamma. Qed.
+Print Assumptions C19_tall_tree_gamma.
+
+(* hence the Taylor property of the constant-coefficient expansion is a consequence of the Butcher
+   conditions on tall trees (derived from C19_order_conditions and the link above, not from a second
+   evaluation): the two halves of the model cannot disagree *)
+Theorem C19_ti_coeff_taylor_from_conditions :
+  forall t, In t methods ->
+  forall b row p, In (b, row) (combine (t_b t) (ti_coeff t)) -> In (b, p) (rows t) ->
+  forall k, 1 <= k <= t_stage t -> k <= p -> (nth k row 0 * qfact k == 1)%Q.
+Proof. exact ti_coeff_taylor_from_conditions. Qed.
+Print Assumptions C19_ti_coeff_taylor_from_conditions.
+
 (* non-vacuity: ten methods, 23 tree shapes up to order five *)
 Example C19_nonvacuous : length methods = 10 /\ length (all_upto 5) = 23.
 Proof. vm_compute. split; reflexivity. Qed.
